@@ -7,8 +7,10 @@
 // lookup service that logs every question it is sent, driven directly
 // (Checker.Check), through filtering.DNSFilter.CheckHost and end-to-end
 // through the DNS request path of dnsnode, with one cache shared by the whole
-// history, a fake clock crossing entry expiry, LRU pressure, and lookup
-// faults.
+// history, a fake clock crossing entry expiry, a lookup-service database that
+// changes during the history (the reference tracks which earlier answers are
+// still within the cache time and may therefore still decide), LRU pressure,
+// and lookup faults.
 package c19
 
 import (
@@ -148,7 +150,7 @@ func partners(p pfx) []int32 {
 
 // Op is one generated operation.
 type Op struct {
-	K string `json:"k"` // check | advance
+	K string `json:"k"` // check | advance | db
 	// check
 	Via   string   `json:"via,omitempty"` // direct | filter | dns
 	Host  string   `json:"host,omitempty"`
@@ -158,16 +160,21 @@ type Op struct {
 	Fmt   int      `json:"fmt,omitempty"`   // layout of the TXT answer
 	// advance
 	Ms int64 `json:"ms,omitempty"`
+	// db: names the lookup service starts / stops listing from now on.
+	Add []string `json:"add,omitempty"`
+	Del []string `json:"del,omitempty"`
 }
 
 // Scenario is one case.
 type Scenario struct {
-	Suffix     string   `json:"suffix"`
-	Slot       string   `json:"slot"` // safebrowsing | parental
-	CacheSize  uint     `json:"cache_size"`
-	CacheTimeS int      `json:"cache_time_s"`
-	DB         []string `json:"db"`
-	Pool       []string `json:"pool"`
+	Suffix     string `json:"suffix"`
+	Slot       string `json:"slot"` // safebrowsing | parental
+	CacheSize  uint   `json:"cache_size"`
+	CacheTimeS int    `json:"cache_time_s"`
+	// DB is what the service lists when the case starts; "db" operations change
+	// it during the run.
+	DB   []string `json:"db"`
+	Pool []string `json:"pool"`
 	// FilteringOff switches rule-list filtering off (the lookups stay on).
 	FilteringOff bool `json:"filtering_off,omitempty"`
 	Ops          []Op `json:"ops"`
@@ -329,33 +336,38 @@ func Gen(t *rapid.T, tier string) any {
 			allCand[c] = true
 		}
 	}
-	dbPfx := map[pfx]bool{}
-	for _, s := range db {
-		p := pfxOf(sum(s))
-		if sc.single() {
-			// Keep the entry only if no pool host then has two listed prefixes
-			// among its candidates (see Scenario.single).
-			ok := true
-			for _, h := range sc.Pool {
-				has, other := false, false
-				for _, q := range widePfx[h] {
-					if q == p {
-						has = true
-					} else if dbPfx[q] {
-						other = true
-					}
-				}
-				if has && other {
-					ok = false
+	// admissible: in the single-prefix regime (see Scenario.single) a name may
+	// be listed only if no pool host then has two listed prefixes among its
+	// label-suffixes.
+	dbPfx := map[pfx]int{}
+	admissible := func(p pfx) bool {
+		if !sc.single() {
+			return true
+		}
+		for _, h := range sc.Pool {
+			has, other := false, false
+			for _, q := range widePfx[h] {
+				if q == p {
+					has = true
+				} else if dbPfx[q] > 0 {
+					other = true
 				}
 			}
-			if !ok {
-				continue
+			if has && other {
+				return false
 			}
 		}
-		dbPfx[p] = true
+		return true
+	}
+	for _, s := range db {
+		p := pfxOf(sum(s))
+		if !admissible(p) {
+			continue
+		}
+		dbPfx[p]++
 		sc.DB = append(sc.DB, s)
 	}
+	cur := append([]string(nil), sc.DB...) // what the service lists at this point of the history
 
 	// Operations.
 	maxOps := 40
@@ -366,6 +378,42 @@ func Gen(t *rapid.T, tier string) any {
 	for i, n := 0, rapid.IntRange(10, maxOps).Draw(t, "n_ops"); i < n; i++ {
 		if k := rapid.IntRange(0, 99).Draw(t, "kind"); k >= 40 && k < 66 {
 			sc.Ops = append(sc.Ops, Op{K: "advance", Ms: rapid.SampledFrom(advances).Draw(t, "adv_ms")})
+			continue
+		} else if k >= 66 && k < 77 {
+			// The service's database changes: names of the pool's name space
+			// (hosts, parents, names beyond the four-label cut, public suffixes)
+			// and prefix partners become listed or stop being listed.
+			op := Op{K: "db"}
+			for j, m := 0, rapid.IntRange(1, 2).Draw(t, "n_dbchg"); j < m; j++ {
+				if len(cur) > 0 && rapid.IntRange(0, 2).Draw(t, "db_del") == 0 {
+					x := rapid.SampledFrom(cur).Draw(t, "db_del_name")
+					if contains(op.Add, x) {
+						continue
+					}
+					for ci, y := range cur {
+						if y == x {
+							cur = append(cur[:ci:ci], cur[ci+1:]...)
+							break
+						}
+					}
+					dbPfx[pfxOf(sum(x))]--
+					op.Del = append(op.Del, x)
+					continue
+				}
+				x := rapid.SampledFrom(universe).Draw(t, "db_add_name")
+				if rapid.IntRange(0, 3).Draw(t, "db_add_partner") == 0 {
+					x = pick(pfxOf(sum(x)), "db_add_partner_name")
+				}
+				if x == "" || contains(cur, x) || contains(op.Del, x) || !admissible(pfxOf(sum(x))) {
+					continue
+				}
+				cur = append(cur, x)
+				dbPfx[pfxOf(sum(x))]++
+				op.Add = append(op.Add, x)
+			}
+			if len(op.Add)+len(op.Del) > 0 {
+				sc.Ops = append(sc.Ops, op)
+			}
 			continue
 		}
 		op := Op{K: "check"}
@@ -394,7 +442,7 @@ func Gen(t *rapid.T, tier string) any {
 					} else {
 						p = pfx{byte(rapid.IntRange(0, 255).Draw(t, "extra_p0")), byte(rapid.IntRange(0, 255).Draw(t, "extra_p1"))}
 					}
-					if x := pick(p, "extra_name"); x != "" && !allCand[x] && !contains(db, x) && !contains(op.Extra, x) {
+					if x := pick(p, "extra_name"); x != "" && !allCand[x] && !contains(db, x) && !contains(cur, x) && !contains(op.Extra, x) {
 						op.Extra = append(op.Extra, x)
 					}
 				}
@@ -412,14 +460,26 @@ type asked struct {
 	qtype uint16
 }
 
+// snap is what one answer of the service said about one prefix: the full
+// hashes listed under it at that instant.
+type snap struct {
+	at     time.Time
+	listed map[hash]bool
+}
+
 // lookup is the simulated hash-prefix lookup service (an upstream.Upstream).
-// Its database is constant within a case.  It answers a question with every
-// listed full hash under each asked prefix, plus whatever the armed fault adds.
+// Its database changes only between checks ("db" operations).  It answers a
+// question with every full hash listed at that moment under each asked prefix,
+// plus whatever the armed fault adds.
 type lookup struct {
 	suffix string
 	single bool
 	db     map[hash]bool
 	byPfx  map[pfx][]hash // in database order
+
+	// snaps: per prefix, what the answers given to the current checker said
+	// about it and when (reference model of what a cache may legitimately hold).
+	snaps map[pfx][]snap
 
 	log []asked
 
@@ -492,6 +552,7 @@ func (l *lookup) Exchange(req *dns.Msg) (resp *dns.Msg, err error) {
 			valid = append(valid, hex.EncodeToString(h[:]))
 		}
 	}
+	told := append([]pfx(nil), ps...) // prefixes this answer says something about
 	var junk []string
 	var extraRR []dns.RR
 	hdr := dns.RR_Header{Name: q.Name, Rrtype: dns.TypeTXT, Class: dns.ClassINET, Ttl: 60}
@@ -555,12 +616,26 @@ func (l *lookup) Exchange(req *dns.Msg) (resp *dns.Msg, err error) {
 				}
 			}
 			valid = append(valid, hex.EncodeToString(h[:]))
+			told = append(told, p)
 			if l.fired == "" {
 				fire()
 			}
 		}
 	}
 	l.hashesSent += len(valid)
+	now := time.Now()
+	done := map[pfx]bool{}
+	for _, p := range told {
+		if done[p] {
+			continue
+		}
+		done[p] = true
+		sn := snap{at: now, listed: map[hash]bool{}}
+		for _, h := range l.byPfx[p] {
+			sn.listed[h] = true
+		}
+		l.snaps[p] = append(l.snaps[p], sn)
+	}
 
 	// Layout.
 	if l.fmtK&1 == 1 {
@@ -631,6 +706,89 @@ func (r *runner) newChecker() {
 	})
 	r.bound = 0
 	r.fullyLooked = map[string]time.Time{}
+	r.lk.snaps = map[pfx][]snap{}
+}
+
+// setListed applies a "db" operation to the service.
+func (r *runner) setListed(op Op) {
+	lk := r.lk
+	for _, x := range op.Del {
+		h := sum(x)
+		if !lk.db[h] {
+			continue
+		}
+		delete(lk.db, h)
+		p := pfxOf(h)
+		var keep []hash
+		for _, y := range lk.byPfx[p] {
+			if y != h {
+				keep = append(keep, y)
+			}
+		}
+		if len(keep) == 0 {
+			delete(lk.byPfx, p)
+		} else {
+			lk.byPfx[p] = keep
+		}
+	}
+	for _, x := range op.Add {
+		h := sum(x)
+		if lk.db[h] {
+			continue
+		}
+		lk.db[h] = true
+		lk.byPfx[pfxOf(h)] = append(lk.byPfx[pfxOf(h)], h)
+		// Reach: a name becomes listed while an answer that said "not listed" is
+		// still within the cache time.
+		for _, sn := range lk.snaps[pfxOf(h)] {
+			if !sn.listed[h] && time.Since(sn.at) <= r.cacheTime() {
+				r.c.Probe("listed_while_clean_answer_cached")
+				break
+			}
+		}
+	}
+	r.c.Fault("db_change")
+}
+
+func (r *runner) cacheTime() time.Duration { return time.Duration(r.sc.CacheTimeS) * time.Second }
+
+// pgroup is the candidates of a host that share one hash prefix (one cache
+// entry / one group of the question).
+type pgroup struct {
+	p     pfx
+	hs    []hash
+	names []string
+}
+
+// listedIn says whether src lists one of the group's candidates.
+func (g *pgroup) listedIn(src map[hash]bool) bool {
+	for _, h := range g.hs {
+		if src[h] {
+			return true
+		}
+	}
+	return false
+}
+
+// verdictSources is the statement's cache clause as a reference: the verdict
+// about the candidates under one prefix comes from a fresh lookup (the
+// database as it is now) or, when the prefix was not asked for in this check,
+// possibly from an earlier answer about that prefix that is not older than the
+// cache time ("until the entry expires").  expired are the older answers; they
+// are not sources and only serve to name the class of a mismatch.
+func (r *runner) verdictSources(p pfx, askedFresh bool) (legit, expired []map[hash]bool) {
+	legit = append(legit, r.lk.db)
+	if askedFresh {
+		return legit, nil
+	}
+	for _, sn := range r.lk.snaps[p] {
+		if time.Since(sn.at) <= r.cacheTime() {
+			legit = append(legit, sn.listed)
+		} else {
+			expired = append(expired, sn.listed)
+		}
+	}
+	return legit, expired
 }
 
 func (r *runner) pressure() bool { return r.sc.CacheSize != 0 && r.bound > r.sc.CacheSize }
@@ -716,6 +874,14 @@ func (r *runner) check(i int, op Op) error {
 	lk.fault, lk.extra, lk.fmtK, lk.cur = op.Fault, op.Extra, op.Fmt, candHashes
 	lk.fired, lk.hashesSent, lk.groups, lk.askedNow = "", 0, 0, map[pfx]bool{}
 	n0 := len(lk.log)
+	// Reach: before this check, the newest answer about a candidate's prefix is
+	// past the cache time and says something else than the database does now.
+	for _, h := range candHashes {
+		if sn := lk.snaps[pfxOf(h)]; len(sn) > 0 && time.Since(sn[len(sn)-1].at) > r.cacheTime() && sn[len(sn)-1].listed[h] != lk.db[h] {
+			r.c.Probe("check_after_expiry_of_changed_verdict")
+			break
+		}
+	}
 
 	var o outcome
 	switch op.Via {
@@ -868,32 +1034,94 @@ func (r *runner) check(i int, op Op) error {
 		}
 		return kernel.Violationf("unexpected-check-failure", "check %d of %q (%s): failed (%s) although the lookup service did not fail (fault fired: %q)", i, op.Host, op.Via, o.detail, lk.fired)
 	}
-	if o.blocked == truth {
+	// Which verdicts the statement allows now: per prefix group of candidates,
+	// the legitimate sources (see verdictSources).  "blocked" needs one group
+	// with a source that lists a candidate, "clean" needs for every group a
+	// source that lists none.  With a database that did not change since the
+	// answers were given this is "verdict == ground truth".
+	lookupOK := len(qs) > 0 && lk.fired != "lookup_error"
+	var groups []*pgroup
+	for ci, h := range candHashes {
+		var g *pgroup
+		for _, x := range groups {
+			if x.p == pfxOf(h) {
+				g = x
+			}
+		}
+		if g == nil {
+			g = &pgroup{p: pfxOf(h)}
+			groups = append(groups, g)
+		}
+		g.hs = append(g.hs, h)
+		g.names = append(g.names, cands[ci])
+	}
+	mayBlock, mayClean := false, true
+	var noClean *pgroup // first group without a legitimate "not listed" source
+	staleClean, staleBlock := false, false
+	for _, g := range groups {
+		legit, expired := r.verdictSources(g.p, lookupOK && lk.askedNow[g.p])
+		canClean := false
+		for _, src := range legit {
+			if g.listedIn(src) {
+				mayBlock = true
+			} else {
+				canClean = true
+			}
+		}
+		for _, src := range expired {
+			if g.listedIn(src) {
+				staleBlock = true
+			} else if !canClean {
+				staleClean = true
+			}
+		}
+		if !canClean {
+			mayClean = false
+			if noClean == nil {
+				noClean = g
+			}
+		}
+	}
+	if (o.blocked && mayBlock) || (!o.blocked && mayClean) {
+		if o.blocked != truth {
+			// The database changed; an entry within its lifetime still answers.
+			r.c.Probe("older_verdict_served_within_cache_time")
+		}
 		return nil
 	}
-	// The part of the verdict that concerns the listed candidate came from the
-	// cache if its prefix was not asked for in this check.
+	// The part of the verdict that decides came from the cache if its prefix
+	// was not asked for in this check.
 	fromCache := len(qs) == 0
-	if truth && !lk.askedNow[pfxOf(sum(listed))] {
+	if !o.blocked && noClean != nil && !lk.askedNow[noClean.p] {
 		fromCache = true
 	}
 	var v *kernel.Violation
-	desc := fmt.Sprintf("check %d of %q via %s: got blocked=%v (%s), ground truth blocked=%v (candidates %v, listed %q); lookups in this check: %v", i, op.Host, op.Via, o.blocked, o.detail, truth, cands, listed, qnames)
+	desc := fmt.Sprintf("check %d of %q via %s: got blocked=%v (%s), the service lists now: blocked=%v (candidates %v, listed %q); lookups in this check: %v", i, op.Host, op.Via, o.blocked, o.detail, truth, cands, listed, qnames)
 	switch {
 	case o.blocked:
-		// Blocked although no candidate's full hash is listed.
+		// Blocked although no legitimate source lists a candidate's full hash.
 		for _, s := range icannParents(host) {
-			if lk.db[sum(s)] {
+			h := sum(s)
+			was := lk.db[h]
+			for _, sn := range lk.snaps[pfxOf(h)] {
+				// ... or listed it in an answer the checker may have cached.
+				was = was || sn.listed[h]
+			}
+			if was {
 				cls := "blocked-by-icann-suffix-hash"
 				if underPrivate {
 					cls += "-under-private-suffix"
 				}
-				v = kernel.Violationf(cls, "%s; the database lists %q, an ICANN public suffix above the name, which the statement excludes from the names that decide", desc, s)
+				v = kernel.Violationf(cls, "%s; the database lists (or listed, in an earlier answer) %q, an ICANN public suffix above the name, which the statement excludes from the names that decide", desc, s)
 			}
 		}
-		if v == nil && fromCache {
+		switch {
+		case v != nil:
+		case fromCache && staleBlock:
+			v = kernel.Violationf("stale-block-after-expiry", "%s; the only answers of the service that listed a candidate are older than the cache time (%s)", desc, r.cacheTime())
+		case fromCache:
 			v = kernel.Violationf("cached-block-for-clean-name", "%s", desc)
-		} else if v == nil {
+		default:
 			v = kernel.Violationf("fresh-block-for-clean-name", "%s", desc)
 		}
 	case lk.fired == "lookup_error":
@@ -902,6 +1130,8 @@ func (r *runner) check(i int, op Op) error {
 		switch {
 		case r.pressure():
 			v = kernel.Violationf("cached-clean-for-listed-name-under-lru-pressure", "%s; cache size %d bytes", desc, r.sc.CacheSize)
+		case staleClean:
+			v = kernel.Violationf("stale-clean-after-expiry", "%s; %v (prefix %s) was not asked about, and the only answers of the service that did not list it are older than the cache time (%s)", desc, noClean.names, pfxHex(noClean.p), r.cacheTime())
 		default:
 			v = kernel.Violationf("cached-clean-for-listed-name", "%s", desc)
 		}
@@ -1003,6 +1233,9 @@ func Run(t *testing.T, scAny any, c *kernel.Ctx) error {
 				if err := r.check(i, op); err != nil {
 					return err
 				}
+			case "db":
+				r.setListed(op)
+				c.Eventf("db %d add=%v del=%v", i, op.Add, op.Del)
 			case "advance":
 				d := time.Duration(op.Ms) * time.Millisecond
 				time.Sleep(d)
@@ -1025,7 +1258,7 @@ var _ = sort.Strings
 var Prop = &kernel.Property{
 	ID:    "C19",
 	Level: "exploration",
-	Rule: "seeded histories (rapid): a lookup-service database drawn from the label-suffixes of the pool hosts (full names beyond the four-label cut and public suffixes included as entries that must not decide anything) plus brute-forced names whose SHA-256 shares the 2-byte prefix of a listed or of a clean candidate; pool hosts of 1..8 labels under ICANN (com, co.uk, org), private (github.io, blogspot.com, s3.amazonaws.com) and unknown (internal, test, single label) suffixes, mixed case; 10..80 ops = checks through Checker.Check / DNSFilter.CheckHost / the UDP request path (A, AAAA, TXT), all sharing one cache (unlimited, 1 MiB, or 10..512 bytes) with entry lifetime 1 s..1 h, and clock advances 0.4 s..1 d; lookup faults error / malformed TXT strings derived from the host's own hashes (wrong length, non-hex, empty, split) / non-TXT records / unrelated full hashes; " +
+	Rule: "seeded histories (rapid): a lookup-service database drawn from the label-suffixes of the pool hosts (full names beyond the four-label cut and public suffixes included as entries that must not decide anything) plus brute-forced names whose SHA-256 shares the 2-byte prefix of a listed or of a clean candidate; pool hosts of 1..8 labels under ICANN (com, co.uk, org), private (github.io, blogspot.com, s3.amazonaws.com) and unknown (internal, test, single label) suffixes, mixed case; 10..80 ops = checks through Checker.Check / DNSFilter.CheckHost / the UDP request path (A, AAAA, TXT), all sharing one cache (unlimited, 1 MiB, or 10..512 bytes) with entry lifetime 1 s..1 h, clock advances 0.4 s..1 d, and changes of the service's database between checks (pool hosts, their parents, names beyond the four-label cut, public suffixes and prefix partners become listed / stop being listed); lookup faults error / malformed TXT strings derived from the host's own hashes (wrong length, non-hex, empty, split) / non-TXT records / unrelated full hashes; " +
 		"non-trivial = at least one check answered from the cache AND one lookup sent AND both a listed and a clean name checked AND at least one fault fired or the clock advanced; distinct = distinct scenario digests",
 	Gen: Gen,
 	New: func() any { return &Scenario{} },
@@ -1038,15 +1271,17 @@ var Prop = &kernel.Property{
 		return c.Probes["answered_from_cache"] > 0 && c.Probes["lookup_sent"] > 0 && c.Probes["truth_blocked"] > 0 && c.Probes["truth_clean"] > 0 && nf > 0
 	},
 	Real: []string{"internal/filtering/hashprefix (Checker: sub-domain enumeration, question, answer processing, cache)", "golibs/cache (LRU)", "golang.org/x/net/publicsuffix as used by hashprefix", "internal/filtering (DNSFilter.CheckHost, checkSafeBrowsing / checkParental)", "internal/dnsforward request pipeline + blocked-host response", "dnsproxy request path"},
-	Stub: []string{"hash-prefix lookup service (upstream.Upstream stub: constant database, logs every question; seeded faults)", "resolver upstream (logs every question)", "client socket", "query log and statistics (recorders)", "wall clock (synctest)"},
+	Stub: []string{"hash-prefix lookup service (upstream.Upstream stub: database changed by generated operations between checks, logs every question; seeded faults)", "resolver upstream (logs every question)", "client socket", "query log and statistics (recorders)", "wall clock (synctest)"},
 	Assumptions: []string{
 		"golang.org/x/net/publicsuffix is the trusted source of what an ICANN public suffix is (the reference walks over private rules to the ICANN rule above them)",
 		"the lookup service always returns every listed hash under every asked prefix; malformed strings and foreign records are added to that answer, never replace it (otherwise ground truth would not be defined)",
 		"Checker.Check is given lower-case names (its only caller, filtering.CheckHost, lower-cases); mixed case enters through CheckHost and the DNS path",
 		"hashprefix stores an answer by ranging over a Go map, so with a cache small enough to evict, answers with full hashes under two or more prefixes make the LRU order differ from run to run; such cases are not generated (small caches: every pool host has at most one listed prefix among its candidates; multi-prefix answers are exercised with the 1 MiB and unlimited caches)",
 		"outside the statement's quantifier and therefore not generated: a lookup service that answers with a failure response code (SERVFAIL; hashprefix reads only the answer section, so such a reply counts as 'nothing listed' and is cached as such), and a service that answers for listed prefixes it was not asked about (hashprefix stores every prefix an answer mentions as complete knowledge about it); unrelated hashes are only added under prefixes that are unlisted or asked for in the same question",
-		"when entries expire is not asserted (the database is constant, so a stale entry cannot be told from a fresh one); early expiry by the 1 s granularity of the stored expiry is invisible",
+		"cache clause as modelled: a verdict that differs from what the service lists now is accepted only if the prefix concerned was not asked about in this check and an earlier answer about it, not older than the configured cache time (boundary inclusive), supports the verdict; whether a lookup is sent after expiry when the verdict would be the same is not asserted; early expiry (1 s granularity of the stored expiry) is allowed",
+		"an answer that carries an unrelated full hash under a prefix that was not asked about (and is unlisted at that moment) counts as an answer about that prefix: hashprefix caches it as such, and the statement does not say otherwise",
 	},
-	FaultKinds: append([]string{"clock_advance"}, faultKinds...),
-	ProbeNames: []string{"truth_blocked", "truth_clean", "answered_from_cache", "cache_hit_blocked", "lookup_sent", "partial_lookup", "expired_refetch", "no_candidates", "host_over_4_labels", "clean_under_listed_prefix", "listed_with_prefix_sibling", "lru_pressure", "check_failed_on_lookup_error"},
+	FaultKinds: append([]string{"clock_advance", "db_change"}, faultKinds...),
+	ProbeNames: []string{"truth_blocked", "truth_clean", "answered_from_cache", "cache_hit_blocked", "lookup_sent", "partial_lookup", "expired_refetch", "no_candidates", "host_over_4_labels", "clean_under_listed_prefix", "listed_with_prefix_sibling", "lru_pressure", "check_failed_on_lookup_error",
+		"listed_while_clean_answer_cached", "check_after_expiry_of_changed_verdict", "older_verdict_served_within_cache_time"},
 }
